@@ -8,6 +8,9 @@
 (* start; events "load" = Community(anonymize = v) for prefix p, "unload" = instance i unloaded,   *)
 (* "setanon" = explicit set_anonymity): the switch inside the endpoint is never consulted, a send  *)
 (* is judged by KindOf(sending instance).                                                          *)
+(* WHICH CIRCUIT IS READY: `closing` of a logged circuit is what the harness did to it (took it    *)
+(* down by Circuit.close / remove_circuit in any of CloseWays), not what the object reports; the   *)
+(* removal timers (due) belong to the implementation layer and are not consulted here.             *)
 EXTENDS TunnelEndpoint, Json, IOUtils, TLCExt
 
 Traces == JsonDeserialize(IOEnv.TRACE_FILE)
@@ -26,7 +29,8 @@ TraceInit == /\ tid \in 1..Len(Traces) /\ l = 1
              /\ attached = Traces[tid].attached
              /\ hopsCfg = Traces[tid].hops
              /\ cand = FALSE /\ ncirc = 0
-             /\ circuits = <<>> /\ queue = <<>> /\ nsent = 0 /\ out = <<>>
+             /\ circuits = Traces[tid].circs        \* the table at the start (header)
+             /\ due = <<>> /\ queue = <<>> /\ nsent = 0 /\ out = <<>>
              /\ last = [kind |-> "env", pkt |-> 0] /\ depth = 0
 
 (* the judgement is made on the logged values (no primed variables below a quantifier: TLC would *)
@@ -51,7 +55,7 @@ TraceNext ==
        /\ circuits' = e.circs /\ queue' = e.queue /\ out' = e.out
        /\ nsent' = IF e.a = "send" THEN e.pkt ELSE nsent
        /\ last' = [kind |-> kind, pkt |-> pkt]
-  /\ l' = l + 1 /\ UNCHANGED <<tid, cand, ncirc, depth>>
+  /\ l' = l + 1 /\ UNCHANGED <<tid, cand, ncirc, depth, due>>
 
 TraceSpec == TraceInit /\ [][TraceNext]_tvars
 
